@@ -55,6 +55,17 @@ def check(ctx, rep):
                 n = sum(1 for i in se.term_info.values() if i.get("k") == "call" and i["name"] == "rc4::Rc4::apply_keystream")
                 rep.check(n == 1, "derivation", fn, "single-drop", "exactly one discard", "%d keystream applications in the constructor" % n, se.body.loc())
                 good = True
+            # or: a helper that advances the keystream n times, called with the constant 1024
+            elif v[0] == "after" and util.is_call(v[1]) and v[2] == 0 and util.is_call(v[3], "rc4::Rc4::new") and skip_helper(ctx, v[1][1]) is not None:
+                key = util.bexpr(ctx, se, v[3][2][0])
+                want = ("HMAC", P(2), (P(1),))
+                rep.check(key == util.cb(want), "derivation", fn, "hmac-key", "RC4 key = all bytes of HMAC-SHA1(key = direction constant; session key)", "RC4 key is %s, expected HMAC-SHA1(key=arg2; arg1)" % show_b(key)[:300], se.body.loc())
+                kparam = skip_helper(ctx, v[1][1])
+                amount = strip(v[1][2][kparam - 1]) if kparam - 1 < len(v[1][2]) else ("?",)
+                rep.check(amount[:2] == ("int", DROP), "derivation", fn, "drop-1024", "%s advances the keystream once per count; called with %d" % (v[1][1], DROP), "discarded prefix is %s steps, expected %d" % (show(amount, maxdepth=2), DROP), se.body.loc())
+                n = sum(1 for i in se.term_info.values() if i.get("k") == "call" and (i["name"] == "rc4::Rc4::apply_keystream" or skip_helper(ctx, i["name"]) is not None))
+                rep.check(n == 1, "derivation", fn, "single-drop", "exactly one discard", "%d keystream applications in the constructor" % n, se.body.loc())
+                good = True
         if not good:
             rep.violation("derivation", fn, "shape", "constructor is not Rc4::new(hmac) followed by one discarded keystream application: " + desc, se.body.loc())
         sig = [fb.ty(i).s for i in se.body.d["inputs"]]
@@ -189,6 +200,11 @@ def check(ctx, rep):
     if nse is not None:
         r = strip(nse.ret)
         good = r[0] == "after" and util.is_call(r[1], "rc4::Rc4::key_scheduling_algorithm") and strip(r[1][2][1]) == ("param", 1) and r[3][0] == "agg" and all(o[:2] == ("int", 0) or (o[0] == "repeat" and o[1][:2] == ("int", 0)) for o in r[3][4])
+        if not good and r[0] == "agg" and r[2] == "rc4::Rc4":
+            # the KSA as a function returning the table: Rc4 { state: KSA(key), i: 0, j: 0 }
+            tabs = [o for o in r[4] if util.is_call(strip(o), "rc4::Rc4::key_scheduling_algorithm") and tuple(strip(a) for a in strip(o)[2]) == (("param", 1),)]
+            zeros = [o for o in r[4] if o[:2] == ("int", 0)]
+            good = len(tabs) == 1 and len(zeros) == len(r[4]) - 1
     rep.check(good, "state-writers", "rc4::Rc4::new", "init", "new = KSA(key) over a zeroed state, counters 0", "Rc4::new is not {zero state, i = j = 0} followed by the KSA over the whole key")
 
 
@@ -206,9 +222,18 @@ def ksa(ctx, rep):
     if len(fe) != 2:
         rep.violation("ksa", fn, "shape", "expected two for_each passes (identity init, key mixing), found %d" % len(fe), body.loc())
         return
+    form = ksa_form(ctx, se)
+    if form is None:
+        rep.violation("ksa", fn, "shape", "the KSA neither works on self.state nor returns a local [u8; 256] table", body.loc())
+        return
+    key_param, table_loc, in_self = form
     # pass 1: self.state.iter_mut().enumerate().for_each(|(i, x)| *x = i as u8)
     it1 = strip(fe[0]["args"][0])
     ok1 = util.is_call(it1, "std::iter::Iterator::enumerate") and util.is_call(it1[2][0], "core::slice::<impl [T]>::iter_mut")
+    if ok1:
+        im = se.term_info.get(it1[2][0][3][1], {})
+        la = im.get("locargs", (("?",),))[0]
+        ok1 = la[0] == "ref" and la[1] == table_loc
     c0 = ctx.flat.run(fn + "::{closure#0}")
     init_ok = False
     if c0 is not None:
@@ -226,7 +251,7 @@ def ksa(ctx, rep):
     if util.is_call(it2, "std::iter::Iterator::zip"):
         a, b = it2[2]
         rng_ok = a[0] == "agg" and a[2] == "std::ops::Range" and tuple(x[:2] for x in a[4]) == (("int", 0), ("int", 256))
-        cyc_ok = util.is_call(b, "std::iter::Iterator::cycle") and util.is_call(b[2][0], "core::slice::<impl [T]>::iter") and strip(b[2][0][2][0]) == ("param", 2)
+        cyc_ok = util.is_call(b, "std::iter::Iterator::cycle") and util.is_call(b[2][0], "core::slice::<impl [T]>::iter") and strip(b[2][0][2][0]) == ("param", key_param)
         ok2 = rng_ok and cyc_ok
     rep.check(ok2, "ksa", fn, "index-and-key-schedule", "i = 0..256 in order zipped with key bytes cycled (key[i mod len])", "mixing pass does not iterate (0..256) zipped with the cycled key", body.loc())
     cl = fe[1]["locargs"][1]
@@ -239,7 +264,7 @@ def ksa(ctx, rep):
             st = se.in_state.get(site[1], {})
             j0 = st.get(jref[1])
             j0_ok = j0 is not None and j0[:2] == ("int", 0)
-        self_ok = cl[4][1][0] == "ref" and cl[4][1][1] == ("local", 1)
+        self_ok = cl[4][1][0] == "ref" and cl[4][1][1] == (("local", 1) if in_self else table_loc)
         j0_ok = j0_ok and self_ok
     rep.check(j0_ok, "ksa", fn, "j-starts-at-0", "j = 0 before mixing; closure captures (&mut j, &mut self)", "mixing closure is not started with j = 0 over this state", body.loc())
     c1 = ctx.flat.run(fn + "::{closure#1}")
@@ -254,7 +279,8 @@ def ksa(ctx, rep):
             selfobj = strip(("deref", ("deref", ("field", env1, 1))))  # ***env.1
             fs = ctx.fb.adt_fields("rc4::Rc4")
             si = [i for i, f in enumerate(fs) if ctx.fb.ty(f["ty"]).k == "array"]
-            envm = {("field", ("param", 1), 0): "j", ("field", ("field", ("param", 1), 1), si[0]) if si else None: "S", ("field", ("param", 2), 0): "n", ("field", ("param", 2), 1): "k"}
+            s_term = ("field", ("field", ("param", 1), 1), si[0]) if in_self and si else ("field", ("param", 1), 1)
+            envm = {("field", ("param", 1), 0): "j", s_term: "S", ("field", ("param", 2), 0): "n", ("field", ("param", 2), 1): "k"}
             want_j = wadd(wadd(S("j"), ("idx", S("S"), S("n"))), S("k"))
             want_S = ("swap", S("S"), S("n"), want_j)
             got_j = got_S = None
@@ -264,8 +290,10 @@ def ksa(ctx, rep):
                 if sr == ("field", ("param", 1), 0):
                     got_j = arith.norm(v, envm)
                 elif sr == ("field", ("param", 1), 1):
-                    if v[0] == "upd" and v[2] == ("f", si[0]):
+                    if in_self and v[0] == "upd" and v[2] == ("f", si[0]):
                         got_S = arith.norm(v[3], envm)
+                    elif not in_self:
+                        got_S = arith.norm(v, envm)
                     else:
                         others += 1
                 else:
@@ -273,6 +301,67 @@ def ksa(ctx, rep):
             good = got_j == want_j and got_S == want_S and others == 0
             desc = "j' = %s; S' = %s" % (arith.show(got_j) if got_j else "?", arith.show(got_S)[:120] if got_S else "?")
     rep.check(good, "ksa", fn + "::{closure#1}", "mixing-step", "j' = j +8 S[n] +8 key byte; swap(S[n], S[j'])", "KSA mixing step is " + desc, c1.body.loc() if c1 else None)
+
+
+def skip_helper(ctx, fn):
+    """fn(&mut Rc4, n) that performs exactly n PRGA steps and nothing else: one loop over 0..n
+    whose body calls pseudo_random_generation(self) once, unconditionally; no other call, no
+    store through self.  Returns the index of the count parameter, or None."""
+    if fn not in ctx.fb.bodies or not fn.startswith("rc4::Rc4::"):
+        return None
+    se = ctx.flat.run(fn)
+    if se is None:
+        return None
+    body = se.body
+    loops = util.for_loops(ctx, se)
+    be = cfg.back_edges(body)
+    if len(loops) != 1 or len(be) != 1:
+        return None
+    ini = strip(loops[0]["init"] or ("?",))
+    if not (ini[0] == "agg" and ini[2] == "std::ops::Range" and ini[4][0][:2] == ("int", 0) and strip(ini[4][1])[0] == "param"):
+        return None
+    calls = [(bb, i) for bb, i in se.term_info.items() if i.get("k") == "call"]
+    other = [i["name"] for bb, i in calls if not (i["name"].endswith("into_iter") or i["name"].endswith("::next") or i["name"] == "rc4::Rc4::pseudo_random_generation")]
+    steps = [(bb, i) for bb, i in calls if i["name"] == "rc4::Rc4::pseudo_random_generation"]
+    if other or len(steps) != 1:
+        return None
+    bb, i = steps[0]
+    la = i["locargs"][0]
+    if not (la[0] == "ref" and la[1] == ("deref", ("param", 1))):
+        return None
+    idom = cfg.dominators(body)
+    if not all(cfg.dominates(idom, bb, t) for t, h in be) or not cfg.must_pass_edge(body, (loops[0]["switch_bb"], loops[0]["body_bb"]), bb):
+        return None
+    # no direct store through self
+    for (bi, si), (loc, v) in se.assigns.items():
+        root = loc
+        while root[0] in ("field", "index", "cindex", "subslice", "downcast"):
+            root = root[1]
+        if root == ("deref", ("param", 1)):
+            return None
+    return strip(ini[4][1])[1]
+
+
+def ksa_form(ctx, se):
+    """(key parameter, location of the permutation table, table is self.state?) for the two
+    spellings: `fn ksa(&mut self, key)` working on self.state, and `fn ksa(key) -> [u8; 256]`
+    returning a local table"""
+    fb = ctx.fb
+    body = se.body
+    fs = fb.adt_fields("rc4::Rc4")
+    si = [i for i, f in enumerate(fs) if fb.ty(f["ty"]).k == "array"]
+    ins = [fb.ty(i) for i in body.d["inputs"]]
+    if len(ins) == 2 and ins[0].k == "ref" and ins[0].peel_refs().path == "rc4::Rc4" and si:
+        return 2, ("field", ("deref", ("param", 1)), si[0]), True
+    out = fb.ty(body.d["output"])
+    if len(ins) == 1 and out.k == "array" and out.len == 256:
+        # the returned value is the final content of one local table
+        fin = list(se.final_states.values())
+        cands = [n for n in range(len(ins) + 1, len(body.locals)) if body.local_ty(n) is not None and body.local_ty(n).k == "array" and body.local_ty(n).len == 256]
+        for n in cands:
+            if fin and all(se.read(st, ("local", n)) == se.ret for st in fin):
+                return 1, ("local", n), False
+    return None
 
 
 def ksa_loops(ctx, rep, se):
@@ -293,11 +382,16 @@ def ksa_loops(ctx, rep, se):
         return
     fs = ctx.fb.adt_fields("rc4::Rc4")
     si = [i for i, f in enumerate(fs) if ctx.fb.ty(f["ty"]).k == "array"][0]
+    form = ksa_form(ctx, se)
+    if form is None:
+        rep.violation("ksa", fn, "shape", "the KSA neither works on self.state nor returns a local [u8; 256] table", body.loc())
+        return
+    key_param, table_loc, in_self = form
     # pass 1: for (n, x) in self.state.iter_mut().enumerate() { *x = n as u8 }
     head, elem, src, lp = p1
     im = strip(src[2][0])
-    old = se.call_old.get((im[3][:2], 0))
-    over_state = old == ("field", ("deref", ("param", 1)), si)
+    la = se.term_info.get(im[3][1], {}).get("locargs", (("?",),))[0]
+    over_state = la[0] == "ref" and la[1] == table_loc
     stores = [(loc, v) for (bi, si_), (loc, v) in se.assigns.items() if loc[0] == "deref" and strip(loc[1]) == ("field", elem, 1)]
     init_ok = over_state and len(stores) == 1 and strip(stores[0][1]) == ("cast", "IntToInt", ("field", elem, 0), "u8")
     rep.check(init_ok, "ksa", fn, "identity-init", "S[n] = n for every n (enumerate over the whole state)", "state initialisation is not S[n] = n over iter_mut().enumerate()", body.loc())
@@ -305,7 +399,7 @@ def ksa_loops(ctx, rep, se):
     head, elem, src, lp = p2
     a, b = strip(src[2][0]), strip(src[2][1])
     rng_ok = a[0] == "agg" and a[2] == "std::ops::Range" and tuple(x[:2] for x in a[4]) == (("int", 0), ("int", 256))
-    cyc_ok = util.is_call(b, "std::iter::Iterator::cycle") and util.is_call(strip(b[2][0]), "core::slice::<impl [T]>::iter") and strip(strip(b[2][0])[2][0]) == ("param", 2)
+    cyc_ok = util.is_call(b, "std::iter::Iterator::cycle") and util.is_call(strip(b[2][0]), "core::slice::<impl [T]>::iter") and strip(strip(b[2][0])[2][0]) == ("param", key_param)
     rep.check(rng_ok and cyc_ok, "ksa", fn, "index-and-key-schedule", "i = 0..256 in order zipped with key bytes cycled (key[i mod len])", "mixing pass does not iterate (0..256) zipped with the cycled key", body.loc())
     st = algos.loop_state(se, head)
     j = None
@@ -313,19 +407,21 @@ def ksa_loops(ctx, rep, se):
     for key, (init, step) in st.items():
         if key[0] == "local" and strip(init)[:2] == ("int", 0):
             j = (key, algos.phi_of(se, head, key), step)
-        if key == ("deref", ("param", 1)):
+        if key == (("deref", ("param", 1)) if in_self else table_loc):
             selfst = (key, algos.phi_of(se, head, key), init, step)
     rep.check(j is not None, "ksa", fn, "j-starts-at-0", "j = 0 before mixing", "no mixing counter starting at 0", body.loc())
     good = False
     desc = "?"
     if j is not None and selfst is not None:
-        env = {strip(j[1]): "j", ("field", strip(selfst[1]), si): "S", ("field", elem, 0): "n", strip(("deref", ("field", elem, 1))): "k", ("field", elem, 1): "k"}
+        env = {strip(j[1]): "j", (("field", strip(selfst[1]), si) if in_self else strip(selfst[1])): "S", ("field", elem, 0): "n", strip(("deref", ("field", elem, 1))): "k", ("field", elem, 1): "k"}
         want_j = wadd(wadd(S("j"), ("idx", S("S"), S("n"))), S("k"))
         got_j = arith.norm(j[2], env)
         stp = selfst[3]
         got_S = None
-        if stp[0] == "upd" and stp[1] == selfst[1] and stp[2] == ("f", si):
+        if in_self and stp[0] == "upd" and stp[1] == selfst[1] and stp[2] == ("f", si):
             got_S = arith.norm(stp[3], env)
+        elif not in_self:
+            got_S = arith.norm(stp, env)
         good = got_j == want_j and got_S == ("swap", S("S"), S("n"), want_j)
         desc = "j' = %s; S' = %s" % (arith.show(got_j), arith.show(got_S)[:120] if got_S else "?")
     rep.check(good, "ksa", fn, "mixing-step", "j' = j +8 S[n] +8 key byte; swap(S[n], S[j'])", "KSA mixing step is " + desc, body.loc())
